@@ -4,12 +4,14 @@ package core
 
 var verifHarnesses = map[string]func(){
 	"VerifC18Exec": VerifC18Exec,
+	"VerifC18Step": VerifC18Step,
 	"VerifC04Step": VerifC04Step,
 	"VerifC06Walk": VerifC06Walk,
 	"VerifC06Step": VerifC06Step,
 	"VerifC07Walk": VerifC07Walk,
 	"VerifC05Walk": VerifC05Walk,
 	"VerifC12Walk": VerifC12Walk,
+	"VerifC12Race": VerifC12Race,
 	"VerifC12Updatable": VerifC12Updatable,
 	"VerifC05Split": VerifC05Split,
 	"VerifC07Step": VerifC07Step,
